@@ -3,9 +3,9 @@ from vcommon import *
 import scen_common, prop_mu_family
 
 PID = "C13"
-PROP_V = ["Props/Properties_C13.v", "Props/Properties_C13b.v", "Props/Properties_C13r.v"]
+PROP_V = ["Props/Properties_C13.v", "Props/Properties_C13b.v", "Props/Properties_C13r.v", "Props/Properties_C05sw.v"]
 GEN_MODULES = ["Consts", "Sites"]
-FLOW_FILES = ['mu.c']
+FLOW_FILES = ['mu.c', 'sem_wait.c', 'note.c']
 REPLAY_HINT = "VRT_SEED=<seed> [env] _work/h/<scenario>: the arena unmaps freed blocks (UAF) and the runtime knows every thread's parked stack pointer (DEADSTACK)"
 PARTIAL = ["Properties_C13b proves by computation over the regenerated Gen/Flow.v + Gen/Sites.v that after nsync_mu_unlock_slow_'s last word CAS (site 5, retry load 6) "
            "only the `waiting` store (site 7), nsync_mu_semaphore_v and EXIT are reachable and that this tail is closed; that after the early-release CAS (site 3) the "
@@ -19,7 +19,12 @@ PARTIAL = ["Properties_C13b proves by computation over the regenerated Gen/Flow.
            "count > 4; per owner and call for on-stack records, because the trace has no stack offsets) and checks at the trace position of every such access "
            "that the record is alive in the model; C13_psem_read_before_store and C13_v_touches_nothing show that wake_waiters' store step has r in its footprint "
            "and hands the semaphore over in the pc, and that the V step touches no record.  Only ATOMIC accesses (the `waiting` word) are in the trace; plain "
-           "accesses (sem, flags, dll links) remain with the arena and dead-stack oracles.  Cancellable waits' on-stack records (sem_wait.c) have no theorem",
+           "accesses (sem, flags, dll links) remain with the arena and dead-stack oracles",
+           "cancellable waits' on-stack records (nsync_sem_wait_with_cancel_'s `nw`): Properties_C05sw over Model/SemWaitModel.v -- C13sw_no_dead_touch (in every "
+           "reachable world no step of a notifier or of the owner has read or written a record whose call had returned; list operations are charged with touching "
+           "EVERY record on the list), C13sw_taken_live (a record a notifier has unlinked is live and the notifier holds the note's note_mu: only note_mu protects "
+           "it, which is why the wait re-takes note_mu before returning -- the seeded change C13c removes exactly that), C13sw_queue; cancel notes without "
+           "children, note_mu abstract; tied by lock-step replay of cancel_mix",
            "mutex half, THE REFCOUNT THEOREM (Properties_C13r over Model/MuRefModel.v, a wrapper that steps MuModel unchanged and adds refs, a ghost "
            "`freed` and a ghost `bad` set by any step that accesses mu->word / mu->waiters after the free): for any number of threads (< 2^24 - 1), any "
            "extra lock / rlock / trylock rounds before the decrement round and any schedule, the pattern lock; last = (--refs == 0); unlock; if last free "
@@ -40,8 +45,10 @@ def run(tier, seed):
     tie = prop_mu_family.mu_tie(res, tier, seed, 200, 2000)
     # the reference-count pattern itself (MuRefModel steps MuModel unchanged: the tie of the wrapper is MuModel's, on the pattern's own traces)
     tie2 = mu_common.tie(res, "mu_replay", "MuModel (refcount pattern)", [("refcount", {}, 150, 1500), ("refcount", {"VRT_RMODE": 1}, 100, 1000)], tier, seed)
+    tie3 = mu_common.tie(res, "semwait_replay", "SemWaitModel", [("cancel_mix", {}, 100, 1000), ("cancel_mix", {"VRT_KIND": 2, "VRT_OMIT": 1}, 50, 500),
+                                                                   ("cancel_mix", {"VRT_KIND": 3, "VRT_OMIT": 0}, 50, 500)], tier, seed)
     for k in ("traces_validated_against_impl", "lockstep_model_steps"):
-        tie[k] = tie.get(k, 0) + tie2.get(k, 0)
+        tie[k] = tie.get(k, 0) + tie2.get(k, 0) + tie3.get(k, 0)
     specs = [("refcount", {}, 3000, 60000), ("refcount", {"VRT_RMODE": 1}, 1000, 20000), ("refcount", {"VRT_MUWAIT": 1}, 3000, 60000), ("refcount", {"VRT_MUWAIT": 1, "VRT_PLAINPM": 30}, 1500, 30000),
              ("waitn_mix", {"VRT_PLAINPM": 40}, 2000, 60000), ("waitn_mix", {"VRT_AIM": 60}, 4000, 60000), ("waitn_mix", {"VRT_AIM": 60, "VRT_KIND": 1}, 4000, 60000),
              ("waitn_mix", {"VRT_AIM": 60, "VRT_KIND": 2}, 2000, 30000), ("cancel_mix", {"VRT_AIM": 60}, 1500, 30000), ("cv_mix", {"VRT_MODE": 3, "VRT_PLAINPM": 40}, 1000, 20000), ("waitn_mix", {}, 3000, 60000),
